@@ -24,7 +24,10 @@ def _job(args):
     lines, corrupt, holds = args[:3]
     pauses = args[3] if len(args) > 3 else ()
     instant = bool(args[4]) if len(args) > 4 else False
-    return serial_rec.run_job(lines, corrupt=corrupt, holds={int(k): v for k, v in holds.items()}, pauses=pauses, instant=instant)
+    nxt = args[5] if len(args) > 5 and args[5] else []
+    copen = args[6] if len(args) > 6 and args[6] else []
+    return serial_rec.run_job(lines, corrupt=corrupt, holds={int(k): v for k, v in holds.items()}, pauses=pauses, instant=instant,
+                              next_jobs=nxt, corrupt_open=copen)
 
 
 def run_jobs(specs, par=12):
@@ -119,8 +122,8 @@ def impl_conformance(traces):
     from .common import workdir, write_json
     groups = {}
     for i, t in enumerate(traces):
-        if t["meta"].get("pauses"):
-            continue                      # SenderImpl has no pause(); those executions belong to SenderPauseImpl
+        if t["meta"].get("pauses") or t["meta"].get("jobs", 1) > 1:
+            continue                      # SenderImpl has no pause() and one job; those executions belong to SenderPauseImpl / SenderJobsImpl
         p = project(t)
         if p is not None and p["nlines"] >= 1:
             groups.setdefault(p["nlines"], []).append((i, p))
@@ -308,8 +311,17 @@ class P(flow.Plan):
                 nexe = len([x for x in lines if serial_rec.strip_job_line(x)])
                 if rng.random() < 0.5:
                     corrupt = sorted(set([c for c in corrupt if c < nexe and c != 0] + [nexe]))
-            specs.append((lines, corrupt, holds, pauses, instant))
-            inputs.append({"lines": lines, "corrupt": corrupt, "holds": holds, "pauses": pauses, "instant": instant})
+            # "for all jobs": a second (third) job streamed on the same connection once the first is over; every other such run
+            # has the link corrupt the OPENING M110 of a later job -- harmless as long as the closing M110 of the job before
+            # got through (added after seed C15e, which dropped that closing reset)
+            nxt, copen = [], []
+            if i % 7 == 3 and not pauses:
+                nxt = [job_lines(rng, rng.randint(1, 5)) for _ in range(rng.choice([1, 1, 2]))]
+                if (i // 7) % 2 == 0:
+                    copen = [2]
+            specs.append((lines, corrupt, holds, pauses, instant, nxt, copen))
+            inputs.append({"lines": lines, "corrupt": corrupt, "holds": holds, "pauses": pauses, "instant": instant,
+                           "next_jobs": nxt, "corrupt_open": copen})
         traces = run_jobs(specs)
         for t in traces:
             t["meta"]["driver"] = "random"
@@ -317,7 +329,8 @@ class P(flow.Plan):
 
     def replay(self, payload):
         inp = payload["input"]
-        return run_jobs([(inp["lines"], inp["corrupt"], inp["holds"], inp.get("pauses", []), inp.get("instant", False))], par=1), [inp]
+        return run_jobs([(inp["lines"], inp["corrupt"], inp["holds"], inp.get("pauses", []), inp.get("instant", False),
+                          inp.get("next_jobs", []), inp.get("corrupt_open", []))], par=1), [inp]
 
     def sample(self, t):
         return {"meta": t["meta"], "raw_job": t["raw"], "ev": [{"k": e["k"], "text": bytes(e["text"]).decode("ascii", "replace"), "bad": e["bad"]} for e in t["ev"][:14]]}
